@@ -147,6 +147,14 @@ def run_generic(ctx, which, module, vo, files, what):
         allm += mism
     ctx.extra['op_histogram'] = hist
     ctx.cov['rule'] = 'every operator/method form of every field on both backends, operands from the boundary list of the quantifier (0,1,2^32-1,2^64-1,p-1,p-2,(p±1)/2,2^k,2^k±1,limb patterns) and seeded random; non-trivial = some operand not in {0,1}'
+    if which == 'C11':       # printers, uncompressed mode, size, trait plumbing, inherent constants (no model op: vlib/surface.py), every run
+        from .. import surface
+        try:
+            n_s, f_s = surface.c11_field_plumbing(ctx, 1 if ctx.tier == 'quick' else 20)
+            ctx.cov['evaluations'] += n_s; ctx.cov['distinct_nontrivial'] += n_s
+            for desc, replay, key in f_s[:8]: ctx.violation(desc, {'stage': 'search', **replay}, key, found_input=True)
+        except RuntimeError as e:
+            ctx.violation('harness failed: %s' % str(e)[:300], {'stage': 'build', 'log': str(e)[-3000:]}, {'stage': 'build'}, found_input=False)
     broken = []
     if not st['regen_ok']: broken.append(('translator failed', {'stage': 'translate', 'log': st.get('regen_log', '')[-2000:]}))
     elif not st['make_ok']: broken.append(('Coq proof obligation no longer checks: %s' % st['bad_file'], {'stage': 'proof', 'theorem_file': st['bad_file'], 'coq_log': st['make_log'][-3000:]}))
